@@ -15,6 +15,20 @@ the translator writes
   src_handlers     the round-1 table (function, adds a note, ends in a bare `raise`)
   src_wait_check / src_wait_check_old    run_evolve calls wait_check() after evolve()  (new / deprecated archipelago)
 
+Round 2c - the same tables for the same behaviour. What is read is normalised first, so that a behaviour-preserving
+rewrite of the anchored code gives the tables of the code it came from (details at "the package, resolved" below):
+calls to helpers of the same module / class / private helpers of the package and functions nested in the function are
+followed (a helper extracted from a handler, a helper that now contains the try statement or the call of the next
+function of the path, a helper holding evolve()/wait_check()); names bound exactly once (locally or at module level)
+and imported names stand for what they are bound to (aliases of add_note, of a context manager, of a tuple of exception
+classes, `import ... as`); a handler "re-raises" when EVERY path through it ends in `raise` / `raise <caught name>`
+(guard clauses, if/else, match, a helper that always raises its argument) and nothing leaves it early; try / with
+statements nested in a handler body or in a finally body are judged through that handler / finally block; a context
+manager defined in the package is read (generator-based: the constructs around its `yield`; class-based: what __exit__
+returns) instead of being looked up in a list; wait_check() must follow evolve() on every path (a conditional or
+skippable wait_check() is not accepted). Everything else still fails closed. Message texts, local names, annotations,
+comments, logging calls are never read.
+
 Properties/C09.v proves over these tables (vm_compute) that every path of every entry point exists, is
 connected, and has no construct that can drop an exception (`source_ok`), that the three note-adding
 handlers exist, catch every Exception and re-raise, and instantiates the generic propagation theorems with them.
@@ -109,16 +123,296 @@ def _find(tree: ast.Module, cls: str | None, name: str) -> ast.FunctionDef:
     return cands[0]
 
 
-def _catches(h: ast.ExceptHandler) -> list[str]:
+# ------------------------------------------------------------------------------------------ the package, resolved
+#
+# General normalisations (round 2c) - the tables of a behaviour-preserving rewrite must equal the tables of the
+# code it came from:
+#   * helper extraction: calls to functions of the same module, methods of the same class (self./cls./Class.) and
+#     private functions imported from another pyxel module are followed (depth <= MAX_DEPTH): a handler that calls a
+#     helper which calls add_note adds a note; a helper through which the path to the model call runs contributes its
+#     constructs and its references to the function that calls it;
+#   * aliases: a local (or module-level) name with exactly ONE binding stands for the expression bound to it
+#     (`add = exc.add_note`, `cm = set_random_seed(seed)`, `_CAUGHT = (ValueError, KeyError)`); imported names stand
+#     for their original name (`from contextlib import suppress as quiet`); a name bound twice is not resolved;
+#   * handler shape: "re-raises" = EVERY path through the handler ends in a bare `raise` / `raise <the caught name>` /
+#     `raise <name>.with_traceback(..)` (if/else, match with a default case, non-suppressing with, a helper that
+#     always raises its argument), nothing leaves the handler early and nothing else is raised;
+#   * constructs inside a handler body or a finally body cannot see the exception in flight unless the re-raise is
+#     inside them (then the handler is not "re-raising") or they leave the block (then SFinally is `leaves`): they are
+#     judged through the handler / finally block they are in, not as constructs of their own.
+MAX_DEPTH = 3
+_DEFS = (ast.FunctionDef, ast.AsyncFunctionDef, ast.Lambda, ast.ClassDef)
+
+
+class Mod:
+    def __init__(self, rel: str, tree: ast.Module):
+        self.rel, self.tree = rel, tree
+        self.funcs = {n.name: n for n in tree.body if isinstance(n, ast.FunctionDef)}
+        self.classes = {n.name: n for n in ast.walk(tree) if isinstance(n, ast.ClassDef)}
+        self.imports: dict[str, tuple[str, str | None]] = {}      # local name -> (absolute module, original name | None)
+        pkg = rel[:-3].split("/")[:-1] if not rel.endswith("__init__.py") else rel.split("/")[:-1]
+        for n in ast.walk(tree):
+            if isinstance(n, ast.ImportFrom):
+                base = pkg[:len(pkg) - (n.level - 1)] if n.level else []
+                mod = ".".join(base + ([n.module] if n.module else []))
+                for a in n.names:
+                    self.imports[a.asname or a.name] = (mod, a.name)
+            elif isinstance(n, ast.Import):
+                for a in n.names:
+                    self.imports[a.asname or a.name.split(".")[0]] = (a.name if a.asname else a.name.split(".")[0], None)
+        self.consts = _single_bindings(tree.body, module=True)
+
+    def method(self, cls: str, name: str, depth: int = 0) -> tuple[str, ast.FunctionDef] | None:
+        c = self.classes.get(cls)
+        if c is None:
+            return None
+        for n in c.body:
+            if isinstance(n, ast.FunctionDef) and n.name == name:
+                return cls, n
+        if depth < 2:
+            for base in c.bases:        # a base class defined in the same module
+                if isinstance(base, ast.Name):
+                    r = self.method(base.id, name, depth + 1)
+                    if r:
+                        return r
+        return None
+
+
+def _bound_names(t: ast.AST):
+    for n in ast.walk(t):
+        if isinstance(n, ast.Name):
+            yield n.id
+
+
+def _single_bindings(stmts: list[ast.stmt], module: bool = False, params: tuple[str, ...] = ()) -> dict[str, ast.expr]:
+    """name -> expression, for the names that are bound exactly once (by a plain assignment) in this scope."""
+    count: dict[str, int] = {p: 1 for p in params}
+    value: dict[str, ast.expr] = {}
+
+    def bind(name, val=None):
+        count[name] = count.get(name, 0) + 1
+        if val is not None:
+            value[name] = val
+
+    def visit(n: ast.AST, top: bool):
+        if isinstance(n, _DEFS) and not top:
+            if not isinstance(n, ast.Lambda):
+                bind(n.name)
+            if module:
+                return
+        if isinstance(n, ast.Assign):
+            for t in n.targets:
+                if isinstance(t, ast.Name):
+                    bind(t.id, n.value if len(n.targets) == 1 else None)
+                else:
+                    for x in _bound_names(t):
+                        if not isinstance(t, (ast.Attribute, ast.Subscript)):
+                            bind(x)
+        elif isinstance(n, ast.AnnAssign):
+            if isinstance(n.target, ast.Name) and n.value is not None:
+                bind(n.target.id, n.value)
+        elif isinstance(n, ast.AugAssign):
+            if isinstance(n.target, ast.Name):
+                bind(n.target.id), bind(n.target.id)
+        elif isinstance(n, (ast.For, ast.AsyncFor, ast.comprehension)):
+            for x in _bound_names(n.target):
+                bind(x), bind(x)
+        elif isinstance(n, (ast.With, ast.AsyncWith)):
+            for it in n.items:
+                if it.optional_vars is not None:
+                    for x in _bound_names(it.optional_vars):
+                        bind(x), bind(x)
+        elif isinstance(n, ast.NamedExpr):
+            bind(n.target.id), bind(n.target.id)
+        elif isinstance(n, ast.ExceptHandler):
+            if n.name:
+                bind(n.name), bind(n.name)
+        elif isinstance(n, (ast.Global, ast.Nonlocal)):
+            for x in n.names:
+                bind(x), bind(x)
+        elif isinstance(n, (ast.Import, ast.ImportFrom)):
+            for a in n.names:
+                bind(a.asname or a.name.split(".")[0]), bind(a.asname or a.name.split(".")[0])
+        for ch in ast.iter_child_nodes(n):
+            visit(ch, False)
+
+    for st in stmts:
+        visit(st, False)
+    if module:
+        # a `global x` anywhere in the module makes x a variable, not a constant
+        for st in stmts:
+            for n in ast.walk(st):
+                if isinstance(n, ast.Global):
+                    for x in n.names:
+                        count[x] = count.get(x, 0) + 2
+    return {k: v for k, v in value.items() if count.get(k) == 1}
+
+
+class Pkg:
+    def __init__(self, repo: Path):
+        self.repo = repo
+        self.mods: dict[str, Mod | None] = {}
+
+    def mod(self, rel: str, required: bool = False) -> Mod | None:
+        if rel not in self.mods:
+            if (self.repo / rel).exists():
+                self.mods[rel] = Mod(rel, parse(self.repo, rel))
+            elif required:
+                raise TranslationError(f"{rel}: file not found")
+            else:
+                self.mods[rel] = None
+        return self.mods[rel]
+
+    def mod_by_name(self, name: str) -> Mod | None:
+        if not (name == "pyxel" or name.startswith("pyxel.")):
+            return None
+        path = name.replace(".", "/")
+        return self.mod(path + ".py") or self.mod(path + "/__init__.py")
+
+    def func_in(self, modname: str, name: str, depth: int = 0):
+        m = self.mod_by_name(modname)
+        if m is None:
+            return None
+        if name in m.funcs:
+            return Fn(m, None, m.funcs[name])
+        if depth < 3 and name in m.imports and m.imports[name][1] is not None:
+            return self.func_in(m.imports[name][0], m.imports[name][1], depth + 1)
+        return None
+
+
+class Fn:
+    """One function of the package with its scope: module, class, single-binding locals."""
+
+    def __init__(self, mod: Mod, cls: str | None, node: ast.FunctionDef):
+        self.mod, self.cls, self.node = mod, cls, node
+        a = node.args
+        params = tuple(x.arg for x in a.posonlyargs + a.args + a.kwonlyargs) + tuple(
+            x.arg for x in (a.vararg, a.kwarg) if x is not None)
+        self.params = [x.arg for x in a.posonlyargs + a.args]
+        self.alias = _single_bindings(node.body, params=params)
+        self.key = (mod.rel, cls, node.name)
+
+    def resolve(self, e: ast.expr, depth: int = 0) -> ast.expr:
+        """Follow single-binding names (local first, then module level)."""
+        while isinstance(e, ast.Name) and depth < 6:
+            if e.id in self.alias:
+                e = self.alias[e.id]
+            elif e.id not in self.node_locals() and e.id in self.mod.consts:
+                e = self.mod.consts[e.id]
+            else:
+                break
+            depth += 1
+        return e
+
+    def node_locals(self) -> set[str]:
+        if not hasattr(self, "_locals"):
+            self._locals = set()
+            for n in ast.walk(self.node):
+                if isinstance(n, ast.Name) and isinstance(n.ctx, ast.Store):
+                    self._locals.add(n.id)
+            a = self.node.args
+            self._locals |= {x.arg for x in a.posonlyargs + a.args + a.kwonlyargs}
+        return self._locals
+
+    def original(self, name: str) -> str:
+        """The original name of an imported name (`from contextlib import suppress as quiet` -> suppress)."""
+        imp = self.mod.imports.get(name)
+        if imp is not None and imp[1] is not None and name not in self.node_locals():
+            return imp[1]
+        return name
+
+    def callee_name(self, call: ast.Call) -> str:
+        f = call.func
+        if isinstance(f, ast.Name):
+            f = self.resolve(f)
+        if isinstance(f, ast.Attribute):
+            return f.attr
+        if isinstance(f, ast.Name):
+            return self.original(f.id)
+        return ""
+
+
+def callee(pkg: Pkg, fn: Fn, call: ast.Call) -> Fn | None:
+    """The function of the package that this call runs, when that is syntactically evident."""
+    f = call.func
+    if isinstance(f, ast.Name):
+        f = fn.resolve(f)
+    if isinstance(f, ast.Name):
+        nested = [n for n in ast.walk(fn.node) if isinstance(n, ast.FunctionDef) and n is not fn.node and n.name == f.id]
+        if len(nested) == 1 and f.id not in fn.node_locals():
+            g = Fn(fn.mod, fn.cls, nested[0])       # a function defined inside this one
+            g.key = (fn.mod.rel, fn.cls, f"{fn.node.name}.<locals>.{f.id}")
+            return g
+        if f.id in fn.node_locals() or nested:
+            return None
+        if f.id in fn.mod.funcs:
+            return Fn(fn.mod, None, fn.mod.funcs[f.id])
+        imp = fn.mod.imports.get(f.id)
+        if imp is not None and imp[1] is not None and (imp[1].startswith("_") or f.id.startswith("_")):
+            return pkg.func_in(imp[0], imp[1])
+        return None
+    if isinstance(f, ast.Attribute) and isinstance(f.value, ast.Name):
+        owner = f.value.id
+        if owner in ("self", "cls") and fn.cls is not None:
+            r = fn.mod.method(fn.cls, f.attr)
+            return Fn(fn.mod, r[0], r[1]) if r else None
+        if owner in fn.mod.classes and owner not in fn.node_locals():
+            r = fn.mod.method(owner, f.attr)
+            return Fn(fn.mod, r[0], r[1]) if r else None
+        imp = fn.mod.imports.get(owner)
+        if imp is not None and f.attr.startswith("_") and owner not in fn.node_locals():
+            modname = imp[0] if imp[1] is None else imp[0] + "." + imp[1]
+            return pkg.func_in(modname, f.attr)
+    return None
+
+
+_LISTED = {v: k for k, v in FUNCS.items()}
+
+
+def calls_in(node: ast.AST | list, skip_defs: bool = True):
+    """The Call nodes below `node` in source order (nested definitions are other scopes)."""
+    stack = list(reversed(node)) if isinstance(node, list) else [node]
+    while stack:
+        n = stack.pop()
+        if skip_defs and isinstance(n, _DEFS):
+            continue
+        if isinstance(n, ast.Call):
+            yield n
+        stack.extend(reversed(list(ast.iter_child_nodes(n))))
+
+
+def helpers_called(pkg: Pkg, fn: Fn, node: ast.AST | list) -> list[Fn]:
+    out, seen = [], set()
+    for c in calls_in(node, skip_defs=False):
+        g = callee(pkg, fn, c)
+        if g is not None and g.key not in _LISTED and g.key != fn.key and g.key not in seen:
+            seen.add(g.key)
+            out.append(g)
+    return out
+
+
+# ------------------------------------------------------------------------------------------ handlers
+
+
+def _catches(h: ast.ExceptHandler, fn: Fn | None = None) -> list[str]:
     if h.type is None:
         return ["BaseException"]
-    if isinstance(h.type, ast.Tuple):
-        return [ast.unparse(e) for e in h.type.elts]
-    return [ast.unparse(h.type)]
+    t = fn.resolve(h.type) if fn is not None else h.type
+    elts = t.elts if isinstance(t, ast.Tuple) else [t]
+    out = []
+    for e in elts:
+        e = fn.resolve(e) if fn is not None else e
+        if isinstance(e, ast.Tuple):
+            out += [ast.unparse(x) for x in e.elts]
+        elif isinstance(e, ast.Name) and fn is not None:
+            out.append(fn.original(e.id))
+        else:
+            out.append(ast.unparse(e))
+    return out
 
 
-def _scope(h: ast.ExceptHandler) -> str:
-    names = {c.split(".")[-1] for c in _catches(h)}
+def _scope(h: ast.ExceptHandler, fn: Fn | None = None) -> str:
+    names = {c.split(".")[-1] for c in _catches(h, fn)}
     if "BaseException" in names:
         return "ScAll"
     if "Exception" in names:
@@ -126,24 +420,116 @@ def _scope(h: ast.ExceptHandler) -> str:
     return "ScSome"
 
 
-def _adds_note(h: ast.ExceptHandler) -> bool:
-    return any(isinstance(n, ast.Call) and isinstance(n.func, ast.Attribute) and n.func.attr == "add_note"
-               for n in ast.walk(h))
+def _mentions_add_note(node: ast.AST | list) -> bool:
+    """`x.add_note` (called or aliased), getattr(x, "add_note"), or the `__notes__` list itself."""
+    for st in (node if isinstance(node, list) else [node]):
+        for n in ast.walk(st):
+            if isinstance(n, ast.Attribute) and n.attr in ("add_note", "__notes__"):
+                return True
+            if isinstance(n, ast.Constant) and n.value in ("add_note", "__notes__"):
+                return True
+    return False
 
 
-def _bare_reraise(h: ast.ExceptHandler) -> bool:
-    """The handler's last statement is a bare `raise`, and no statement can leave the handler earlier."""
-    if not h.body:
+def _adds_note(pkg: Pkg, fn: Fn, body: list[ast.stmt], depth: int = 0, seen: frozenset = frozenset()) -> bool:
+    if _mentions_add_note(body):
+        return True
+    if depth >= MAX_DEPTH:
         return False
-    last = h.body[-1]
-    if not (isinstance(last, ast.Raise) and last.exc is None):
+    return any(_adds_note(pkg, g, g.node.body, depth + 1, seen | {g.key})
+               for g in helpers_called(pkg, fn, body) if g.key not in seen)
+
+
+def _is_exc(fn: Fn, e: ast.expr | None, names: set[str]) -> bool:
+    """`e` is the exception being handled: None (bare raise), its name, an alias of it, or name.with_traceback(..)."""
+    if e is None:
+        return True
+    if isinstance(e, ast.Call) and isinstance(e.func, ast.Attribute) and e.func.attr == "with_traceback":
+        e = e.func.value
+    if isinstance(e, ast.Name):
+        if e.id in names:
+            return True
+        r = fn.resolve(e)
+        return isinstance(r, ast.Name) and r.id in names
+    return False
+
+
+def _always_reraises(pkg: Pkg, fn: Fn, stmts: list[ast.stmt], names: set[str], depth: int = 0) -> bool:
+    """Every path through this block ends by raising the exception being handled again."""
+    if not stmts:
         return False
-    for n in ast.walk(h):
-        if isinstance(n, (ast.Return, ast.Continue, ast.Break)):
+    last = stmts[-1]
+    if isinstance(last, ast.Raise):
+        return _is_exc(fn, last.exc, names) and last.cause is None
+    if isinstance(last, ast.If):
+        return bool(last.orelse) and _always_reraises(pkg, fn, last.body, names, depth) \
+            and _always_reraises(pkg, fn, last.orelse, names, depth)
+    if hasattr(ast, "Match") and isinstance(last, ast.Match):
+        default = last.cases and last.cases[-1].guard is None and isinstance(last.cases[-1].pattern, ast.MatchAs) \
+            and last.cases[-1].pattern.pattern is None
+        return bool(default) and all(_always_reraises(pkg, fn, c.body, names, depth) for c in last.cases)
+    if isinstance(last, ast.With):
+        return all(_with_kind(fn, it) == "ok" for it in last.items) and _always_reraises(pkg, fn, last.body, names, depth)
+    if isinstance(last, ast.Expr) and isinstance(last.value, ast.Call) and depth < MAX_DEPTH:
+        g = callee(pkg, fn, last.value)
+        if g is not None:
+            # the parameters that receive the exception
+            passed = set()
+            params = g.params[1:] if (g.cls is not None and g.params[:1] in (["self"], ["cls"])) else g.params
+            for p, a in zip(params, last.value.args):
+                if _is_exc(fn, a, names) and a is not None:
+                    passed.add(p)
+            for kw in last.value.keywords:
+                if kw.arg and _is_exc(fn, kw.value, names):
+                    passed.add(kw.arg)
+            body = g.node.body
+            return _handler_reraises(pkg, g, body, passed - _rebound(body), depth + 1)
+    return False
+
+
+def _rebound(stmts: list[ast.stmt]) -> set[str]:
+    out = set()
+    for st in stmts:
+        for n in ast.walk(st):
+            if isinstance(n, ast.Name) and isinstance(n.ctx, (ast.Store, ast.Del)):
+                out.add(n.id)
+    return out
+
+
+def _handler_reraises(pkg: Pkg, fn: Fn, body: list[ast.stmt], names: set[str], depth: int = 0) -> bool:
+    """The block (a handler body, or the body of a helper called as its last statement) re-raises the handled
+    exception on every path; nothing leaves it early (return, break, continue) and nothing else is raised, in it or
+    in a helper it calls."""
+    if not _always_reraises(pkg, fn, body, names, depth):
+        return False
+    if _leaves(body):
+        return False
+    for n in _walk_scope(body):
+        if isinstance(n, ast.Raise) and not (_is_exc(fn, n.exc, names) and n.cause is None):
             return False
-        if isinstance(n, ast.Raise) and n.exc is not None:
-            return False
+    if depth < MAX_DEPTH:
+        for g in helpers_called(pkg, fn, body):
+            for n in _walk_scope(g.node.body):
+                if isinstance(n, ast.Raise) and n.exc is not None:
+                    # a helper that raises the exception it was given is judged by _always_reraises
+                    if not (isinstance(n.exc, ast.Name) and n.exc.id in g.params):
+                        return False
     return True
+
+
+def _walk_scope(stmts: list[ast.stmt]):
+    stack = list(stmts)
+    while stack:
+        n = stack.pop()
+        if isinstance(n, _DEFS):
+            continue
+        yield n
+        stack.extend(ast.iter_child_nodes(n))
+
+
+def _bare_reraise(pkg: Pkg, fn: Fn, h: ast.ExceptHandler) -> bool:
+    names = {h.name} - _rebound(h.body) if h.name else set()
+    return _handler_reraises(pkg, fn, h.body, names)
 
 
 def _leaves(stmts: list[ast.stmt], in_loop: bool = False) -> bool:
@@ -175,56 +561,228 @@ def _leaves(stmts: list[ast.stmt], in_loop: bool = False) -> bool:
     return False
 
 
-def _manager_name(e: ast.expr) -> str:
+def _manager_name(e: ast.expr, fn: Fn | None = None) -> str:
+    if fn is not None:
+        e = fn.resolve(e)
     if isinstance(e, ast.Call):
         e = e.func
+        if fn is not None:
+            e = fn.resolve(e)
     if isinstance(e, ast.Attribute):
         return e.attr
     if isinstance(e, ast.Name):
-        return e.id
+        return fn.original(e.id) if fn is not None else e.id
     return ""
+
+
+def _with_kind(fn: Fn, it: ast.withitem) -> str:
+    name = _manager_name(it.context_expr, fn)
+    if name in WITH_SUPPRESS:
+        return "suppress"
+    if name in WITH_OK or name.lower().endswith("lock"):
+        return "ok"
+    return "unknown"
+
+
+def _package_manager(pkg: Pkg, fn: Fn, it: ast.withitem):
+    """A context manager DEFINED IN THE PACKAGE, read instead of trusted: ("generator", Fn) for a function decorated
+    with contextlib.contextmanager (its body is then read like a helper on the path: a try around its `yield` sees the
+    exception of the with body), ("class", ok) for a class whose __exit__ returns nothing / None / False on every path
+    (ok = True: it cannot suppress)."""
+    e = fn.resolve(it.context_expr)
+    if not isinstance(e, ast.Call):
+        return None
+    f = fn.resolve(e.func) if isinstance(e.func, ast.Name) else e.func
+    target_mod, target = None, None
+    if isinstance(f, ast.Name) and f.id not in fn.node_locals():
+        if f.id in fn.mod.funcs or f.id in fn.mod.classes:
+            target_mod, target = fn.mod, f.id
+        else:
+            imp = fn.mod.imports.get(f.id)
+            if imp is not None and imp[1] is not None:
+                target_mod, target = _defining_module(pkg, imp[0], imp[1])
+    elif isinstance(f, ast.Attribute) and isinstance(f.value, ast.Name) and f.value.id in fn.mod.imports \
+            and f.value.id not in fn.node_locals():
+        imp = fn.mod.imports[f.value.id]
+        target_mod, target = _defining_module(pkg, imp[0] if imp[1] is None else imp[0] + "." + imp[1], f.attr)
+    if target_mod is None:
+        return None
+    if target in target_mod.funcs:
+        node = target_mod.funcs[target]
+        decos = {(_manager_name(d) if not isinstance(d, ast.Call) else _manager_name(d.func)) for d in node.decorator_list}
+        g = Fn(target_mod, None, node)
+        if {g.original(d) for d in decos} & {"contextmanager"}:
+            return ("generator", g)
+        return None
+    if target in target_mod.classes:
+        r = target_mod.method(target, "__exit__")
+        if r is None:
+            return None
+        rets = [n for n in _walk_scope(r[1].body) if isinstance(n, ast.Return)]
+        ok = all(n.value is None or (isinstance(n.value, ast.Constant) and n.value.value in (None, False)) for n in rets)
+        return ("class", ok)
+    return None
+
+
+def _defining_module(pkg: Pkg, modname: str, name: str, depth: int = 0):
+    m = pkg.mod_by_name(modname)
+    if m is None:
+        return None, None
+    if name in m.funcs or name in m.classes:
+        return m, name
+    if depth < 3 and name in m.imports and m.imports[name][1] is not None:
+        return _defining_module(pkg, m.imports[name][0], m.imports[name][1], depth + 1)
+    return None, None
 
 
 def _only_imports(body: list[ast.stmt]) -> bool:
     return bool(body) and all(isinstance(s, (ast.Import, ast.ImportFrom)) for s in body)
 
 
-def shapes_of(fn: ast.FunctionDef, qual: str):
-    """([shape text], [round-1 handler rows]) of one function (nested functions included)."""
-    shapes, rows = [], []
-    for n in ast.walk(fn):
-        if hasattr(ast, "TryStar") and isinstance(n, ast.TryStar):
-            fail(n, "except* is not handled")
-        if isinstance(n, ast.Try):
-            for h in n.handlers:
-                if set(c.split(".")[-1] for c in _catches(h)) <= HARMLESS or _only_imports(n.body):
+def _constructs(pkg: Pkg, fn: Fn, qual: str, stmts: list[ast.stmt], shapes: list, rows: list, depth: int = 0,
+                done: set | None = None):
+    """The try / with statements of a block, nested definitions included; the bodies of handlers and of finally
+    blocks are judged through their handler / finally block (see the note at the top of this section)."""
+    for st in stmts:
+        if hasattr(ast, "TryStar") and isinstance(st, ast.TryStar):
+            fail(st, "except* is not handled")
+        if isinstance(st, ast.Try):
+            for h in st.handlers:
+                if set(c.split(".")[-1] for c in _catches(h, fn)) <= HARMLESS or _only_imports(st.body):
                     continue
-                a, r = _adds_note(h), _bare_reraise(h)
-                shapes.append(f"SExcept {_scope(h)} {b(a)} {b(r)}")
+                a, r = _adds_note(pkg, fn, h.body), _bare_reraise(pkg, fn, h)
+                shapes.append(f"SExcept {_scope(h, fn)} {b(a)} {b(r)}")
                 rows.append((qual, a, r))
-            if n.finalbody:
-                shapes.append(f"SFinally {b(_leaves(n.finalbody))}")
-        if isinstance(n, (ast.With, ast.AsyncWith)):
-            for it in n.items:
-                name = _manager_name(it.context_expr)
-                if name in WITH_SUPPRESS:
+            if st.finalbody:
+                shapes.append(f"SFinally {b(_leaves(st.finalbody))}")
+            _constructs(pkg, fn, qual, st.body, shapes, rows, depth, done)
+            _constructs(pkg, fn, qual, st.orelse, shapes, rows, depth, done)
+            continue
+        if isinstance(st, (ast.With, ast.AsyncWith)):
+            for it in st.items:
+                kind = _with_kind(fn, it)
+                if kind == "suppress":
                     shapes.append("SWith true")
                     rows.append((qual, False, False))
-                elif name in WITH_OK or name.lower().endswith("lock"):
+                elif kind == "ok":
                     shapes.append("SWith false")
                 else:
-                    fail(n, f"{qual}: context manager not known to propagate exceptions")
-    return shapes, rows
+                    pm = _package_manager(pkg, fn, it)
+                    if pm is not None and pm[0] == "generator" and depth < MAX_DEPTH:
+                        shapes.append("SWith false")        # what it does with the exception: its own constructs
+                        if pm[1].key not in _LISTED and (done is None or pm[1].key not in done):
+                            if done is not None:
+                                done.add(pm[1].key)
+                            _constructs(pkg, pm[1], qual, pm[1].node.body, shapes, rows, depth + 1, done)
+                    elif pm is not None and pm[0] == "class":
+                        shapes.append(f"SWith {b(not pm[1])}")
+                        if not pm[1]:
+                            rows.append((qual, False, False))
+                    else:
+                        fail(st, f"{qual}: context manager not known to propagate exceptions")
+        # every block below this statement (loops, if/else, match cases, with bodies, nested definitions)
+        for field in ("body", "orelse"):
+            sub = getattr(st, field, None)
+            if isinstance(sub, list) and sub and isinstance(sub[0], ast.stmt):
+                _constructs(pkg, fn, qual, sub, shapes, rows, depth, done)
+        if hasattr(ast, "Match") and isinstance(st, ast.Match):
+            for case in st.cases:
+                _constructs(pkg, fn, qual, case.body, shapes, rows, depth, done)
+        # definitions nested in expressions cannot contain statements (lambda), so nothing else to visit
 
 
-def _refs(fn: ast.FunctionDef) -> set[str]:
+def _names(node: ast.AST, fn: Fn | None = None) -> set[str]:
+    """Every identifier and attribute name used; imported names also under their original name."""
     out = set()
-    for n in ast.walk(fn):
+    for n in ast.walk(node):
         if isinstance(n, ast.Name):
             out.add(n.id)
+            if fn is not None:
+                out.add(fn.original(n.id))
         elif isinstance(n, ast.Attribute):
             out.add(n.attr)
     return out
+
+
+# a helper that triggers a lazy computation or hands work to the optimiser is on the way of a model's exception
+# even when it names none of the listed functions
+LAZY = {"compute", "persist", "wait_check", "evolve", "push_back", "map_blocks", "apply_ufunc", "delayed"}
+# functions whose next function on a path is called by a library (Model/Failure.v lib_edges): which of their
+# helpers the path runs through cannot be told from references, so all of them are read
+LIB_SOURCES = {"ArchipelagoDataTree._build", "MyArchipelago._build", "DaskBFE.__call__", "ProblemSerializable.fitness",
+               "ArchipelagoDataTree.run_evolve", "MyArchipelago.run_evolve", "DaskIsland.run_evolve",
+               "AlgoSerializable.evolve", "ModelGroup.run"}
+
+
+def closure(pkg: Pkg, fn: Fn) -> list[Fn]:
+    """The helpers (not themselves listed) reachable from a listed function through evident calls OUTSIDE handler and
+    finally bodies, depth <= MAX_DEPTH."""
+    out, seen = [], {fn.key}
+
+    def visit(f: Fn, depth: int):
+        if depth >= MAX_DEPTH:
+            return
+        for g in helpers_called(pkg, f, _path_part(f.node.body)):
+            if g.key not in seen:
+                seen.add(g.key)
+                if "<locals>" not in g.key[2]:      # a nested definition is read as part of its parent
+                    out.append(g)
+                visit(g, depth + 1)
+    visit(fn, 0)
+    return out
+
+
+def _path_part(stmts: list[ast.stmt]) -> list[ast.AST]:
+    """The statements with handler bodies and finally bodies left out (code that runs there is not on the way to
+    the model call)."""
+    out: list[ast.AST] = []
+    for st in stmts:
+        if isinstance(st, ast.Try):
+            out += _path_part(st.body) + _path_part(st.orelse)
+            continue
+        keep = st
+        blocks = [f for f in ("body", "orelse") if isinstance(getattr(st, f, None), list) and getattr(st, f)
+                  and isinstance(getattr(st, f)[0], ast.stmt)]
+        if blocks or (hasattr(ast, "Match") and isinstance(st, ast.Match)):
+            # header expressions + the blocks, recursively
+            for name, val in ast.iter_fields(st):
+                if name in ("body", "orelse", "cases", "handlers", "finalbody", "decorator_list"):
+                    continue
+                if isinstance(val, ast.AST):
+                    out.append(val)
+                elif isinstance(val, list):
+                    out += [v for v in val if isinstance(v, ast.AST)]
+            for f in blocks:
+                out += _path_part(getattr(st, f))
+            if hasattr(ast, "Match") and isinstance(st, ast.Match):
+                for case in st.cases:
+                    out += _path_part(case.body)
+            continue
+        out.append(keep)
+    return out
+
+
+def shapes_of(pkg: Pkg, fn: Fn, qual: str):
+    """([shape text], [round-1 handler rows], names referred to) of one listed function, the helpers on the path
+    through it included."""
+    shapes, rows = [], []
+    done: set = set()
+    _constructs(pkg, fn, qual, fn.node.body, shapes, rows, 0, done)
+    names = _names(fn.node, fn)
+    simple = {_simple(g) for g in FUNCS if _simple(g) is not None} | LAZY
+    for g in closure(pkg, fn):
+        gnames = _names(g.node, g)
+        names |= gnames
+        on_path = (qual in LIB_SOURCES or bool(gnames & simple) or _yields(g.node)
+                   or any(_names(x.node, x) & simple or _yields(x.node) for x in closure(pkg, g)))
+        if on_path and g.key not in done:
+            done.add(g.key)
+            _constructs(pkg, g, qual, g.node.body, shapes, rows, 0, done)
+    return shapes, rows, names
+
+
+def _yields(node: ast.AST) -> bool:
+    return any(isinstance(n, (ast.Yield, ast.YieldFrom, ast.Await)) for n in ast.walk(node))
 
 
 def _simple(qual: str) -> str | None:
@@ -236,16 +794,122 @@ def _simple(qual: str) -> str | None:
     return right
 
 
-def _wait_check(fn: ast.FunctionDef) -> bool:
-    """evolve() and wait_check() in the same loop body, in this order."""
-    ok = False
-    for loop in [x for x in ast.walk(fn) if isinstance(x, ast.For)]:
-        calls = [c.func.attr for st in loop.body for c in ast.walk(st)
-                 if isinstance(c, ast.Call) and isinstance(c.func, ast.Attribute)
-                 and c.func.attr in ("evolve", "wait_check")]
-        if "evolve" in calls:
-            ok = "wait_check" in calls and calls.index("evolve") < calls.index("wait_check")
-    return ok
+# ------------------------------------------------------------------------------------------ evolve(); wait_check()
+
+
+def _contains_call(pkg: Pkg, fn: Fn, node, name: str, depth: int = 0) -> bool:
+    for c in calls_in(node):
+        if fn.callee_name(c) == name:
+            return True
+        if depth < MAX_DEPTH:
+            g = callee(pkg, fn, c)
+            if g is not None and g.key != fn.key and _contains_call(pkg, g, g.node.body, name, depth + 1):
+                return True
+    return False
+
+
+def _uncond_calls_in_expr(e: ast.AST):
+    """Calls that are evaluated whenever the expression is (not under a conditional / short-circuit / lambda /
+    comprehension)."""
+    stack = [e]
+    while stack:
+        n = stack.pop()
+        if isinstance(n, (ast.Lambda, ast.ListComp, ast.SetComp, ast.DictComp, ast.GeneratorExp)):
+            continue
+        if isinstance(n, ast.IfExp):
+            stack.append(n.test)
+            continue
+        if isinstance(n, ast.BoolOp):
+            stack.append(n.values[0])
+            continue
+        if isinstance(n, ast.Call):
+            yield n
+        stack.extend(ast.iter_child_nodes(n))
+
+
+def _uncond(pkg: Pkg, fn: Fn, st: ast.stmt, name: str, depth: int = 0) -> bool:
+    """Executing this statement always calls `name` (unless something raises first)."""
+    if isinstance(st, (ast.Expr, ast.Assign, ast.AnnAssign, ast.AugAssign, ast.Return)):
+        if st.value is None:
+            return False
+        for c in _uncond_calls_in_expr(st.value):
+            if fn.callee_name(c) == name:
+                return True
+            if depth < MAX_DEPTH:
+                g = callee(pkg, fn, c)
+                if g is not None and g.key != fn.key and _uncond_block(pkg, g, g.node.body, name, depth + 1):
+                    return True
+        return False
+    if isinstance(st, (ast.With, ast.AsyncWith)):
+        return all(_with_kind(fn, it) == "ok" for it in st.items) and _uncond_block(pkg, fn, st.body, name, depth)
+    if isinstance(st, ast.Try):
+        if st.finalbody and _uncond_block(pkg, fn, st.finalbody, name, depth):
+            return True
+        return not st.handlers and _uncond_block(pkg, fn, st.body, name, depth)
+    if isinstance(st, ast.If):
+        return bool(st.orelse) and _uncond_block(pkg, fn, st.body, name, depth) and _uncond_block(pkg, fn, st.orelse, name, depth)
+    return False
+
+
+def _uncond_block(pkg: Pkg, fn: Fn, block: list[ast.stmt], name: str, depth: int = 0) -> bool:
+    for st in block:
+        if _uncond(pkg, fn, st, name, depth):
+            return True
+        if _leaves([st], in_loop=False) or any(isinstance(n, ast.Raise) for n in _walk_scope([st])):
+            return False
+    return False
+
+
+def _followed(pkg: Pkg, fn: Fn, block: list[ast.stmt], depth: int = 0) -> bool:
+    """Every evolve() in this block is followed, on every path, by wait_check() (guard clauses, conditional checks
+    and early exits between the two are not accepted)."""
+    for i, st in enumerate(block):
+        if not _contains_call(pkg, fn, st, "evolve"):
+            continue
+        if _nested_ok(pkg, fn, st, depth):
+            continue
+        ok = False
+        for later in block[i + 1:]:
+            if _uncond(pkg, fn, later, "wait_check"):
+                ok = True
+                break
+            if _leaves([later]) or any(isinstance(n, ast.Raise) for n in _walk_scope([later])):
+                break
+        if not ok:
+            return False
+    return True
+
+
+def _nested_ok(pkg: Pkg, fn: Fn, st: ast.stmt, depth: int) -> bool:
+    blocks = [getattr(st, f) for f in ("body", "orelse", "finalbody") if isinstance(getattr(st, f, None), list)
+              and getattr(st, f) and isinstance(getattr(st, f)[0], ast.stmt)]
+    blocks += [h.body for h in getattr(st, "handlers", []) or []]
+    if hasattr(ast, "Match") and isinstance(st, ast.Match):
+        blocks += [c.body for c in st.cases]
+    if blocks:
+        if isinstance(st, _DEFS):
+            return False
+        # evolve() in the header expression of a compound statement is not a shape we know
+        header = [v for name, v in ast.iter_fields(st) if name not in ("body", "orelse", "finalbody", "handlers", "cases")
+                  and isinstance(v, ast.AST)]
+        if any(_contains_call(pkg, fn, hd, "evolve") for hd in header):
+            return False
+        return all(_followed(pkg, fn, blk, depth) for blk in blocks)
+    # a simple statement: evolve() directly in it -> must be followed in the enclosing block; through a helper -> in the helper
+    direct = any(fn.callee_name(c) == "evolve" for c in calls_in(st))
+    if direct or depth >= MAX_DEPTH:
+        return False
+    for c in calls_in(st):
+        g = callee(pkg, fn, c)
+        if g is not None and g.key != fn.key and _contains_call(pkg, g, g.node.body, "evolve"):
+            if not _followed(pkg, g, g.node.body, depth + 1):
+                return False
+    return True
+
+
+def _wait_check(pkg: Pkg, fn: Fn) -> bool:
+    """evolve() is called, and every evolve() is followed by wait_check()."""
+    return _contains_call(pkg, fn, fn.node.body, "evolve") and _followed(pkg, fn, fn.node.body)
 
 
 def b(x) -> str:
@@ -253,19 +917,17 @@ def b(x) -> str:
 
 
 def tables_of(repo: Path):
-    trees: dict[str, ast.Module] = {}
+    pkg = Pkg(repo)
     cons, refs, rows, wc = [], [], [], {}
     for qual, (rel, cls, name) in FUNCS.items():
-        if rel not in trees:
-            trees[rel] = parse(repo, rel)
-        fn = _find(trees[rel], cls, name)
-        shapes, rws = shapes_of(fn, qual)
+        m = pkg.mod(rel, required=True)
+        fn = Fn(m, cls, _find(m.tree, cls, name))
+        shapes, rws, names = shapes_of(pkg, fn, qual)
         cons.append((qual, shapes))
         rows += rws
-        names = _refs(fn)
         refs.append((qual, [g for g in FUNCS if g != qual and _simple(g) is not None and _simple(g) in names]))
         if name == "run_evolve" and cls in ("ArchipelagoDataTree", "MyArchipelago"):
-            wc[cls] = _wait_check(fn)
+            wc[cls] = _wait_check(pkg, fn)
     return cons, refs, rows, wc.get("ArchipelagoDataTree", False), wc.get("MyArchipelago", False)
 
 
